@@ -15,12 +15,19 @@ func init() {
 			"1-4 remotes each honest|tamper:<kind>|404|5xx|hang, local 404); EVERY arrival order of the answering remotes is forced through gated stub backends of a real Conn " +
 			"and judged by K1 (reference PDH of returned text), K2 (returned == +A→+R<id>- image of what an honest released remote sent, bytes), K3 (no honest ⇒ error), " +
 			"K4 (honest ⇒ success in every order), KC (pending remotes see cancellation). by-UUID: K2 only. " +
+			"refetch: ONE Conn, 1-3 remotes (re-signing on every call | fixed text | altering | flaky | 404 | 5xx), 2-6 fetches by PDH or by UUID of 1-2 collections, sequential or all at once; " +
+			"the fetch number travels in the context, so K1-K4 are judged against what each remote sent FOR THAT FETCH. " +
+			"overlap: 2-4 remotes with 0.3-3 MB manifests (altered early|middle|late|last stream, same or other length) released with 0-3 ms gaps without waiting for consumption, " +
+			"dishonest-first and random release orders, same oracles. " +
+			"pdhfunc: arvados.PortableDataHash called alone and from 2-8 goroutines at once (large, small, re-signed, altered texts) against MD5+length of the reference normal form. " +
 			"controller (legacy): rewriteSignatures on synthetic responses and the fetchRemoteCollectionByPDH/ByUUID fan-out over a stub http transport, same oracles. " +
 			"non-trivial = at least one remote sent a manifest; distinct = distinct (request kind, locator decoration, sorted remote behaviours) tuples",
 		Assume: []string{
 			"'honest' = the reference portable data hash (MD5+length of the text with every locator reduced to hash+size) of the text a remote sends equals the hash+size part of the requested id",
 			"permission hints are +A<lower-case hex>@<lower-case hex>; other +A… spellings are not generated (unspecified)",
 			"arrival order is forced by releasing the next remote only after the goroutine delivering the previous answer has exited (runtime.NumGoroutine)",
+			"refetch: a stub remote learns which fetch a call belongs to from a context value set by the harness (Conn derives the remotes' contexts from the caller's)",
+			"overlap/pdhfunc: overlapping is steered with sleeps and observed by counters (answers all released before the call returned, calls in flight); zero overlap ⇒ inconclusive",
 			"legacy path: K4 (completeness) is judged only for manifests whose locators are bare or carry exactly one permission hint",
 		},
 	})
